@@ -363,7 +363,9 @@ Definition perform (c : cfg) (s : store) (r : request) (actor t : N) : store * r
 (* does the handler refuse other methods than POST, and where: before or after the
    authorization test *)
 Definition post_before_authz (o : op) : bool :=
-  match o with ManageTOTP _ | TOTPValidate => true | _ => false end.
+  match o with ManageTOTP _ | TOTPValidate => true
+  | ManageU2F _ => true   (* since fix 2b03847: tokens are only changed by POST *)
+  | _ => false end.
 Definition post_after_authz (o : op) : bool :=
   match o with AddUser | DeleteUser | NewBootstrapOTP | RoleCert => true | _ => false end.
 
